@@ -400,6 +400,7 @@ type nodePair struct {
 
 func newTree(prof *profile.Profile, o *Options) (g *Graph) {
 	parentNodeMap := make(map[*Node]NodeMap, len(prof.Sample))
+	var parents []*Node // Keys of parentNodeMap in the order they were added.
 	for _, sample := range prof.Sample {
 		var w, dw int64
 		w = o.SampleValue(sample.Value)
@@ -423,6 +424,7 @@ func newTree(prof *profile.Profile, o *Options) (g *Graph) {
 				if nodeMap == nil {
 					nodeMap = make(NodeMap)
 					parentNodeMap[parent] = nodeMap
+					parents = append(parents, parent)
 				}
 				n := nodeMap.findOrInsertLine(l, lines[lidx], o)
 				if n == nil {
@@ -440,9 +442,14 @@ func newTree(prof *profile.Profile, o *Options) (g *Graph) {
 		}
 	}
 
+	// Collect the nodes in an order that does not depend on map iteration:
+	// a call tree has many nodes with equal names and weights, which the
+	// orderings applied later cannot tell apart.
 	nodes := make(Nodes, 0, len(prof.Location))
-	for _, nm := range parentNodeMap {
-		nodes = append(nodes, nm.nodes()...)
+	for _, parent := range parents {
+		ns := parentNodeMap[parent].nodes()
+		ns.Sort(NameOrder)
+		nodes = append(nodes, ns...)
 	}
 	return selectNodesForGraph(nodes, o.DropNegative)
 }
